@@ -403,6 +403,24 @@ fn check(ctx: &Ctx, rng: &mut Rng, case_id: u64, root_base: &Path) {
                         }
                     }
                 }
+                // recovery: the file is put back and the very same tree is built again (same thread, same paths):
+                // the failed build must not have left anything behind
+                let _ = std::fs::write(&disk, ir::print_canonical(&t.files[victim].nodes));
+                let again = fw::build_file(&main, &t.caller_dirs);
+                ctx.eval(1);
+                ctx.count("rebuilds_after_failed_build", 1);
+                let first = fw::build_str(&flat_src);
+                let same = match (&again, &first) {
+                    (Outcome::Ok(a), Outcome::Ok(b)) => a.code == b.code && a.eeprom == b.eeprom && a.ram_filling == b.ram_filling,
+                    _ => false,
+                };
+                if !same {
+                    ctx.violation(
+                        "include/rebuild-after-missing-file",
+                        format!("after a build that failed on a missing file, the restored tree no longer builds like before: {}", fw::clip(&format!("{:?}", again.brief()), 200)),
+                        json!({"tree": tree_json(), "caller_dirs": t.caller_dirs.iter().map(|p| p.display().to_string()).collect::<Vec<_>>(), "flattened": flat_src, "rebuild_after_failure": true, "observed": again.brief()}),
+                    );
+                }
             }
         }
     }
@@ -451,7 +469,7 @@ pub fn run(ctx: &Ctx) -> i32 {
     let _ = std::fs::remove_dir_all(&root_base);
     fw::finish(
         ctx,
-        "generated programs (device selection, .equ/label/alias definitions and uses incl. forward references, macros defined on either side and called before/after, complete conditional chains, messages, data/EEPROM segments) cut at item boundaries into trees of files up to 5 deep; each file placed by one rule: absolute path, includer's directory (also via sub/), caller-supplied directory, earlier absolute .includepath, earlier relative .includepath (also with ../); a third of the .include lines sit inside a conditional (taken branch, or the .else of an untaken branch that names files existing nowhere); a quarter of the included files end in `.exit` followed by garbage and .error; per tree one reachable file is removed (must fail naming it); counters include-resolved:* = INCLUDE hook events by rule; distinct_nontrivial = distinct trees (seed, index)",
+        "generated programs (device selection, .equ/label/alias definitions and uses incl. forward references, macros defined on either side and called before/after, complete conditional chains, messages, data/EEPROM segments) cut at item boundaries into trees of files up to 5 deep; each file placed by one rule: absolute path, includer's directory (also via sub/), caller-supplied directory, earlier absolute .includepath, earlier relative .includepath (also with ../); a third of the .include lines sit inside a conditional (taken branch, or the .else of an untaken branch that names files existing nowhere); a quarter of the included files end in `.exit` followed by garbage and .error; per tree one reachable file is removed (must fail naming it), then put back and the tree rebuilt on the same thread (must build as before); counters include-resolved:* = INCLUDE hook events by rule; distinct_nontrivial = distinct trees (seed, index)",
         &[
             "file names are unique per tree (precedence between equally named files is not specified)",
             "an .includepath issued inside an included file is only relied on for that file's own later includes",
